@@ -62,6 +62,8 @@ pub struct Sim {
     /// C11 reordering oracle: the chain as it was before the previous accepted order operation,
     /// that operation, and the orders it named
     pub prev_op: Option<PrevOp>,
+    /// every observation of the step in which the reported violation occurred
+    pub last_all: Vec<Violation>,
 }
 
 pub struct PrevOp {
@@ -133,6 +135,7 @@ impl Sim {
             legacy_ids: BTreeSet::new(),
             event_log: vec![],
             prev_op: None,
+            last_all: vec![],
         };
         sim.cov.runs = 1;
         if enabled.iter().filter(|b| **b).count() == 1 {
@@ -169,6 +172,9 @@ impl Sim {
                 .any(|p| prop_index(p).map(|i| en[i]).unwrap_or(false))
         });
         let r = pos.map(|i| self.pending[i].clone());
+        if r.is_some() {
+            self.last_all = self.pending.clone();
+        }
         self.pending.clear();
         r
     }
